@@ -4,11 +4,14 @@ import (
 	"context"
 	"errors"
 	"fmt"
+	"net"
+	"reflect"
 	"runtime"
 	"runtime/debug"
 	"strings"
 	"testing"
 	"time"
+	"unsafe"
 
 	"github.com/ClickHouse/ch-go"
 	"github.com/ClickHouse/ch-go/chpool"
@@ -231,6 +234,15 @@ func runPool(t *testing.T, c *choice.Stream, r *Result, opt RunOpt, lean bool) {
 			return srv
 		}
 		dialer := &simnet.Dialer{W: e.W, NewPeer: newPeer, Fail: dialFail}
+		// some connections report an error from Close while releasing the socket
+		// (tls.Conn does when close_notify cannot be written)
+		closeErr := map[int]bool{}
+		if c.Bool("close_err", 1, 3) {
+			for n := 0; n < 12; n++ {
+				closeErr[n] = c.Bool("close_err.n", 1, 2)
+			}
+		}
+		dialer.OnConn = func(n int, cn *simnet.Conn) { cn.CloseErr = closeErr[n] }
 		e.Sim.DrawStrategy()
 		e.Sim.MaxSteps = 200000
 		e.W.DeliverMode = c.Weighted("deliver", 5, 0, 2)
@@ -494,6 +506,20 @@ func runPool(t *testing.T, c *choice.Stream, r *Result, opt RunOpt, lean bool) {
 							iv = &holdIv{user: name, id: nHold, to: -1, conn: -1}
 							if !lean {
 								iv.from, iv.fromAt = e.Sim.Step, e.Sim.Now()
+								// Which connection was handed out is looked up in the handle itself
+								// (a dead connection carries no request that the server could
+								// attribute), and the entitlement is judged at once.
+								if id := poolConnID(x); id >= 0 && stepErr == "" {
+									iv.conn = id
+									if b, bad := banned[id]; bad {
+										stepErr = fmt.Sprintf("I3|reissued|connection %d was handed to %s by Acquire at step %d although %s", id, name, iv.from, b.why)
+									}
+									for _, o := range holds {
+										if o.conn == id && o.to < 0 {
+											stepErr = fmt.Sprintf("I1|two-holders|connection %d was handed to %s by Acquire at step %d while %s holds it (since step %d)", id, name, iv.from, o.user, o.from)
+										}
+									}
+								}
 								holds = append(holds, iv)
 							}
 						case "release":
@@ -603,3 +629,27 @@ func runPool(t *testing.T, c *choice.Stream, r *Result, opt RunOpt, lean bool) {
 }
 
 var _ = choice.New
+
+// poolConnID finds the simulated connection behind a pool handle. The harness
+// only reads: handle -> resource -> client -> net.Conn.
+func poolConnID(x *chpool.Client) (id int) {
+	defer func() {
+		if recover() != nil {
+			id = -1
+		}
+	}()
+	open := func(f reflect.Value) reflect.Value {
+		return reflect.NewAt(f.Type(), unsafe.Pointer(f.UnsafeAddr())).Elem()
+	}
+	res := open(reflect.ValueOf(x).Elem().FieldByName("res"))
+	if res.IsNil() {
+		return -1
+	}
+	cr := res.MethodByName("Value").Call(nil)[0]
+	cli := open(cr.Elem().FieldByName("client")).Interface().(*ch.Client)
+	cn := open(reflect.ValueOf(cli).Elem().FieldByName("conn")).Interface().(net.Conn)
+	if sc, ok := cn.(*simnet.Conn); ok {
+		return sc.ID
+	}
+	return -1
+}
